@@ -53,4 +53,16 @@ CHECKS = [
        "the model resolver mirrors pathlib's documented suffix rule for 'ext'.",
        "deterministic simulation: simulator-owned storage with errno/edit fault plan + virtual-time asyncio loop; oracle = independent path resolver over unique content tokens",
        "DESIGN.md section 4, C22"),
+    _c("C01",
+       "Seeded search over scenario x schedule x latency: two environments built from one recipe, the synchronous "
+       "one being the executable reference model; 1-6 concurrent tasks on a virtual-time loop drive every *_async "
+       "entry point (render, get_template, analyze and its helpers, analyze_tags, Environment/convenience render) "
+       "through dict/choice/file-system/package/custom loaders and their caching variants while loaders, executor "
+       "jobs and async drops suspend for seeded durations and several tasks share one template object; each "
+       "result is compared with the synchronous result of the same operation when it returns. A sys.setprofile "
+       "probe reports which of liquid's async defs were entered. Evidence over sampled scenarios, not proof.",
+       "Exceptions compare by class; the sync API is trusted as the reference (a defect mirrored in both twins is "
+       "invisible); sources are static within a run; memory addresses and the sandbox directory name are blanked.",
+       "deterministic simulation: virtual-time asyncio loop with seeded loader/executor/drop latency; refinement of the async API against the sync API",
+       "DESIGN.md section 4, C01"),
 ]
